@@ -36,11 +36,11 @@ ANCHORS = [
     ('pjrpc/common/v20.py', 'BatchResponse._add_ids'), ('pjrpc/common/v20.py', 'Response.from_json'),
     ('pjrpc/client/client.py', 'AbstractClient._send'), ('pjrpc/client/client.py', 'AbstractAsyncClient._send'),
 ]
-_FAULTS = ['none', 'omit', 'duplicate', 'extra', 'retype', 'bool-id', 'float-id', 'null-id', 'batch-level-error', 'garbage']
+_FAULTS = ['none', 'omit', 'duplicate', 'extra', 'retype', 'bool-id', 'float-id', 'null-id', 'extra-null-id', 'batch-level-error', 'garbage']
 FLOORS = {'*': {**{f'fault:{f}:{k}': 5 for f in _FAULTS for k in ('sync', 'async')},
                 'permutation:non-identity-accepted': 50, 'single:equal': 10, 'single:different': 10, 'single:null': 10,
                 'single:retyped': 10, 'single:bool': 4, 'strict:off': 100, 'op:send': 200, 'op:call': 200,
-                'mix:has-error': 100, 'ids:zero': 50, 'ids:str': 50, 'prior:accepted': 30, 'prior:refused': 30, 'verdict:identity': 100, 'verdict:deser': 50, 'verdict:accept': 200}}
+                'mix:has-error': 100, 'verdict:accept-with-null-id-elements': 20, 'ids:zero': 50, 'ids:str': 50, 'prior:accepted': 30, 'prior:refused': 30, 'verdict:identity': 100, 'verdict:deser': 50, 'verdict:accept': 200}}
 
 
 def scheme_ids(ids, n):
@@ -133,6 +133,24 @@ def run_batch(ctx, n, notif_at, doc, fault, strict, is_async, op, nonjson=None, 
     fam = f'batch:{fault}:{ck}'
     if verdict == 'open':
         ctx.unjudge('batch:' + info)
+        return
+    if verdict == 'accept-null':
+        ctx.hit('verdict:accept-with-null-id-elements')
+        if op == 'send':
+            if st != 'ret' or out is None:
+                ctx.violation(f'valid-batch-response-refused:{type(out).__name__}:null-id-element', fam, cls, **wit)
+                return
+            kept = [r for r in out if r.id is None]
+            if len(out) != len(doc) or len(kept) != len(info['nulls']):
+                ctx.violation('null-id-response-dropped-from-the-batch', fam, cls, kept=len(out), sent=len(doc), **wit)
+                return
+            st2, res = clientside.outcome_of(lambda: out.result, False)
+        else:
+            st2, res = st, out
+        if info['any_error'] and (st2 != 'exc' or not isinstance(res, JsonRpcError)):
+            ctx.violation('server-error-in-batch-not-raised:null-id-element', fam, cls, result=[st2, res], **wit)
+            return
+        ctx.ok(fam + ':accept-null-id', cls, sample=wit)
         return
     if verdict == 'deser':
         ctx.hit('verdict:deser')
@@ -333,6 +351,10 @@ def mutate(perm_doc, n, fault, k, rng):
         d[idx]['id'] = float(d[idx]['id']) if isinstance(d[idx]['id'], int) else 1.5
     elif fault == 'null-id':
         d[idx]['id'] = None
+    elif fault == 'extra-null-id':
+        extra = ({'jsonrpc': '2.0', 'id': None, 'error': {'code': -32600, 'message': 'Invalid Request', 'data': k}} if k % 3 else
+                 {'jsonrpc': '2.0', 'id': None, 'result': 'stray'})
+        d.insert(rng.randrange(len(d) + 1), extra)
     return d
 
 
@@ -368,7 +390,7 @@ def gen(ctx):
             for mask in (masks if (deep or n <= 3) else [masks[0], masks[-1]] + rng.sample(masks[1:-1], 2)):
                 ids = ('one', 'zero', 'str', 'one')[(k + len(perm)) % 4]
                 base = [elem_for(ids, i, mask[i - 1]) for i in perm]
-                for fault in ('none', 'omit', 'duplicate', 'extra', 'retype', 'bool-id', 'float-id', 'null-id'):
+                for fault in ('none', 'omit', 'duplicate', 'extra', 'retype', 'bool-id', 'float-id', 'null-id', 'extra-null-id'):
                     ks = range(n) if (deep or fault == 'none' or n <= 3) else [rng.randrange(n)]
                     for kk in ([0] if fault == 'none' else ks):
                         doc = mutate(base, n, fault, kk, rng)
